@@ -37,7 +37,7 @@ from . import _kvs as K
 
 LEVEL = "model_checking"
 
-MC = {"quick": ["prim_quick", "db", "ev", "ev_hostile", "red", "red_flush"],
+MC = {"quick": ["prim_quick", "db", "ev", "ev_hostile_quick", "red", "red_flush"],
       "thorough": ["prim", "db", "ev", "ev_hostile", "red", "red_flush"]}
 # (configuration, deviation, properties of which at least one must be refuted)
 DEVS = [("db", "xset_overwrites", {"ExclusiveSetNeverOverwrites", "SetDBPathExactlyOnce", "ExclusiveSetAtMostOnce", "DbPathStable"}),
@@ -263,14 +263,20 @@ def record_scenario(rec, tok, start, step, nsteps, seed):
     del rec.records[:], rec.reports[:]
     init_store, _ = K.proj_store(tok)
     np.random.seed(seed)
-    with _Alarm(120):
-        app = su.build(cfg)
-        su.run_for(app, nsteps * step)
+    failure = None
+    try:
+        with _Alarm(60):
+            app = su.build(cfg)
+            su.run_for(app, nsteps * step)
+    except (K.Runaway, TimeoutError) as ex:
+        failure = f"{type(ex).__name__}: {ex}"
+        sched.reset()
+    finally:
+        rec.client_of = None
+        rec.clear_objects = True
     from resonaate.data import clearDBPath
     clearDBPath()
-    rec.client_of = None
-    rec.clear_objects = True
-    return _finish_trace(list(rec.records), init_store, tok), list(rec.reports)
+    return _finish_trace(list(rec.records[:400]), init_store, tok), list(rec.reports), failure
 
 
 MENU = [("setDBPath", 3), ("clearDBPath", 2), ("getDBConnection", 2), ("pushEvent", 6), ("logAndFlush", 5), ("reduction", 4),
@@ -333,7 +339,11 @@ def validate_traces(ctx: Ctx, traces, name, workers):
     import os
     if os.environ.get("G01_KEEP"):
         open(os.environ["G01_KEEP"], "w").write(json.dumps(traces))
-    res = tlc.require_ok(tlc.run_tlc("TraceKeyValueStore", "TraceKeyValueStore.cfg", d, workers=workers, cont=True,
+    clients = sorted({c for t in traces for c in t[0]["clients"]})
+    cfg = ((tlc.SPEC_DIR / "TraceKeyValueStore.cfg").read_text()
+           .replace("{CLIENTS}", "{" + ", ".join(json.dumps(c) for c in clients) + "}")
+           .replace("{KEYS}", "{" + ", ".join(json.dumps(k) for k in keys) + "}").replace("{NTRACES}", str(len(traces))))
+    res = tlc.require_ok(tlc.run_tlc("TraceKeyValueStore", cfg, d, workers=workers, cont=True,
                                      env={"TRACE_FILE": "traces.json"}, timeout=1800))
     ctx.add_tlc(res, f"TraceKeyValueStore.tla: {len(traces)} recorded runs, {sum(len(t) - 1 for t in traces)} transactions")
     reached = {}
@@ -369,10 +379,10 @@ def run(ctx: Ctx):
     fut = {}
     for name in ("prim_edges", "proto_edges"):
         fut[name] = pool.submit(tlc.run_tlc, "MCKeyValueStore", f"MCKeyValueStore_{name}.cfg", ctx.sub(name), workers=w, timeout=900)
-    nsim = (60, 60) if quick else (600, 400)
+    nsim = (30, 40) if quick else (600, 400)
     for (name, n) in zip(("all", "proto"), nsim):
         fut["sim_" + name] = pool.submit(tlc.run_tlc, "SimKeyValueStore", f"SimKeyValueStore_{name}.cfg", ctx.sub("sim_" + name), workers=1,
-                                         timeout=1800, simulate=f"num={n}", depth=60, seed=ctx.seed + 11, coverage=True)
+                                         timeout=1800, simulate=f"num={n}", depth=60, seed=ctx.seed + 11)
     for name in MC[ctx.tier]:
         fut["mc_" + name] = pool.submit(tlc.run_tlc, "MCKeyValueStore", f"MCKeyValueStore_{name}.cfg", ctx.sub("mc_" + name), workers=w if quick else 8,
                                         timeout=2400)
@@ -436,7 +446,12 @@ def run(ctx: Ctx):
         if not quick:
             scen += [("2020-02-29T23:59:30", 45, 4, 5), ("2021-06-15T03:17:41", 120, 3, 6)]
         for start, step, nsteps, seed in scen:
-            (tr, und), reports = record_scenario(rec, tok, start, step, nsteps, seed)
+            (tr, und), reports, failure = record_scenario(rec, tok, start, step, nsteps, seed)
+            if failure:
+                ctx.violation("kvs-trace:scenario:call-never-completes",
+                              f"real scenario {start} step {step}: {failure}; last transactions "
+                              f"{[[r['c'], r['op'], r['tx'], r['res']['k']] for r in tr[-4:]]}", {"mode": "trace", "trace": tr})
+                break
             pushes = sum(r["op"] == "pushEvent" for r in tr[1:])
             if pushes == 0:
                 raise tlc.MachineryError("the recorded scenario pushed no event (impulse / burn configuration ineffective)")
@@ -459,7 +474,9 @@ def run(ctx: Ctx):
             ctx.case((kind, h), nontrivial=True, sample={"kind": kind, **meta, "head": [[r["c"], r["op"], r["tx"], r["res"]["k"] + r["res"]["e"]] for r in tr[1:9]]}
                      if len(ctx.samples) < 6 and (kind == "scenario" or j % 17 == 5) else None)
             ctx.traces_validated += 1
-            pos = reached.get(j + 1, 2)
+            pos = reached.get(j + 1, 1)
+            if pos < 2:
+                raise tlc.MachineryError(f"trace {j + 1} ({kind} {meta}) could not be loaded by TraceKeyValueStore.tla")
             if (j + 1) in inv:
                 ctx.violation(f"kvs-trace:invariant:{inv[j + 1]}", f"recorded {kind} run {meta}: {inv[j + 1]} fails on the recorded dictionary",
                               {"mode": "trace", "trace": tr})
